@@ -29,7 +29,7 @@ REQUIRED = ('calls_judged', 'file_backed_values', 'reopen_events', 'pickle_event
             'presence_schedules', 'presence_lookups', 'atomicity_schedules', 'free_runs', 'exceptions_matched',
             'lookups_overlapping_replacement', 'replacements_run_in_front_of_a_file_open',
             'updates_from_failing_iterables', 'blocks_left_by_KeyboardInterrupt', 'blocks_left_by_GeneratorExit',
-            'blocks_left_by_commit')
+            'blocks_left_by_commit', 'indexes_opened_inside_schedules')
 ASSUMPTIONS = ('bool and NaN keys are not generated (OrderedDict unifies True with 1, the cache by design does not)',)
 
 T = 64
@@ -448,14 +448,28 @@ def atomicity_schedule(dc, sc, res, rng, label):
         init[k] = ('i%s;' % k) * (30 if rng.random() < 0.5 else 1)
         base_ix[k] = init[k]
     n = rng.randrange(2, 4)
-    objs = [base_ix if shared else dc.Index.fromcache(dc.Cache(d, timeout=0)) for _ in range(n)]
+    # clients with their own Index open it (and sometimes open a new one between two calls, or take an unpickled copy)
+    # inside the schedule, while the others are writing
+    late = (not shared) and rng.random() < 0.6
+    objs = [base_ix if shared else None if late else dc.Index.fromcache(dc.Cache(d, timeout=0)) for _ in range(n)]
+    opened = []
+
+    def open_index(how):
+        ix = dc.Index.fromcache(dc.Cache(d, timeout=0))
+        opened.append(ix)
+        res.count('indexes_opened_inside_schedules')
+        return ix
     sch = Sched(rng, clock, strategy=rng.choice(['random', 'preempt', 'random', 'ops']),
                 preempt_points={rng.randrange(0, 150) for _ in range(3)})
     rec = Recorder(sch)
 
     def client(ci):
         def run():
+            if objs[ci] is None:
+                objs[ci] = open_index('open')
             for i in range(rng.randrange(2, 5)):
+                if late and rng.random() < 0.25:
+                    objs[ci] = open_index('reopen')
                 k = rng.choice(['a', 'b', 'c'])
                 op = rng.choice(['setitem', 'getitem', 'pop', 'popitem', 'setdefault', 'delitem', 'len', 'contains'])
                 v = ('c%d-%d;' % (ci, i)) * (30 if rng.random() < 0.5 else 1)
@@ -496,6 +510,8 @@ def atomicity_schedule(dc, sc, res, rng, label):
                 return
         fresh = dc.Index(d)
         t = sch.tick + 5
+        ops.append({'client': 99, 'op': 'len', 'args': (), 'kw': {}, 'call': t, 'ret': t + 1, 'kind': 'ok', 'result': len(fresh)})
+        t += 2
         for k in ['a', 'b', 'c']:
             try:
                 r = ('ok', fresh[k])
@@ -520,7 +536,7 @@ def atomicity_schedule(dc, sc, res, rng, label):
                                                                                 'kind', 'result')} for o in ops]))
     finally:
         probe.set_controller(None)
-        for o in list({id(x): x for x in objs + [base_ix]}.values()):
+        for o in list({id(x): x for x in objs + [base_ix] + opened if x is not None}.values()):
             try:
                 o.cache.close()
             except Exception:      # noqa: BLE001
